@@ -34,6 +34,9 @@ mod spec_util;
 #[cfg(feature = "futures")]
 pub mod nonblocking;
 
+#[cfg(feature = "verif-hooks")]
+pub mod verif;
+
 pub use self::tag_iterator::TagIterator;
 pub use self::tag_writer::{TagWriter, WriteOptions};
 
